@@ -70,7 +70,8 @@ StrScripts ==
 Alphabet == { CLeewayOp("exp", WOf(-1)), CLeewayOp("exp", W0), CLeewayOp("exp", WOf(10)),
               CLeewayOp("nbf", WOf(-1)), CLeewayOp("nbf", WOf(10)),
               CClaimSetOp("iss", "me"), CClaimSetOp("iss", "you"), CClaimDelOp("iss"),
-              CClaimSetOp("aud", "x"), CClaimDelOp("aud"), CLeewayOp("iat", W0), CClaimSetOp("exp", "1") }
+              CClaimSetOp("aud", "x"), CClaimDelOp("aud"), CLeewayOp("iat", W0), CClaimSetOp("exp", "1"),
+              CClaimDelOp("exp"), CClaimDelOp("nbf") }          \* refused calls change nothing
 Probes(s) == << VerifyOp(TokC(s, <<IntM("exp", WSub(T0, WOf(5)))>>)), VerifyOp(TokC(s, <<IntM("nbf", WAdd(T0, WOf(5)))>>)),
                 VerifyOp(TokC(s, <<StrM("iss", "me"), IntM("exp", WAdd(T0, WOf(50)))>>)), VerifyOp(TokC(s, <<StrM("aud", "x")>>)),
                 VerifyOp(TokC(s, <<>>)) >>
